@@ -54,8 +54,18 @@ pub fn run(ctx: &Ctx) -> Outcome {
     for (n, t) in big {
         bases.push(Base { node: n, multi: 0, texts: Some(t) });
     }
+    let cpa_texts = gen::texts(&["a", "b", "-"], 4);
+    let n_cpa = {
+        let fam = gen::common_prefix_alt_family();
+        let n = fam.len();
+        for p in fam {
+            bases.push(Base { node: p, multi: 0, texts: Some(cpa_texts.clone()) });
+        }
+        n
+    };
     let texts = crate::spaces::texts_c01(3);
     let fj = ctx.known.listed("C03", "FJ");
+    let fy = ctx.known.listed("C03", "FY");
     let seed = ctx.seed;
     let acc = par_run(&bases, true, Some(2_000_000), |i, b, acc| {
         let p = &b.node;
@@ -176,6 +186,10 @@ pub fn run(ctx: &Ctx) -> Outcome {
                             acc.known_hit("FJ", || format!("{} vs {} on {:?}@{}", s, vs, t, from));
                             continue;
                         }
+                        if fy && p.has_common_prefix_alt() && !got.is_panic() && !want.is_panic() {
+                            acc.known_hit("FY", || format!("{} vs {} on {:?}@{}: {} vs {}", s, vs, t, from, want.show(), got.show()));
+                            continue;
+                        }
                         let mut viol = Violation::new("C03", "injection", &vs, t, from, "captures_from_pos", want.show(), got.show());
                         viol.note = format!("base pattern {:?} gives the expected value; the variant only adds (?=)", s);
                         acc.violate(viol);
@@ -199,7 +213,7 @@ pub fn run(ctx: &Ctx) -> Outcome {
     crate::diff::run_witnesses(ctx, "C03", "F1", &mut acc);
     let mut out = Outcome::new(acc);
     out.distinct_nontrivial = out.acc.distinct;
-    out.rule = format!("base patterns: all trees of <= {} nodes with every single injection site (before/after every node at any depth){}; 25 contexts x E(2) with every site; seeded random trees of 5-10 nodes with 1-3 random sites each; {} patterns with counted repeats of 10-256 with every site, on texts of n/10, n-1, n, n+1, 2n repetitions from 4 offsets. Each (base, variant) pair is run on all texts over {{a,b,c,é,\\n,-}} up to length 3 (plus the longer repetitive, carriage-return and UTF-8-boundary texts of the C01 space) from every offset and captures_from_pos must be identical. Non-trivial = distinct pairs whose route differs (wrapped vs VM) or whose multiset of delegated sub-patterns differs, and that matched at least once.", all_sites_upto, if ctx.tier == Tier::Quick { "; a seeded quarter of the 4-node trees with one random site" } else { "" }, n_big);
+    out.rule = format!("base patterns: all trees of <= {} nodes with every single injection site (before/after every node at any depth){}; 25 contexts x E(2) with every site; seeded random trees of 5-10 nodes with 1-3 random sites each; {} patterns with counted repeats of 10-256 with every site, on texts of n/10, n-1, n, n+1, 2n repetitions from 4 offsets; {} alternations whose branches start with the same element (family of finding FY) with every site, on all texts over a b - up to length 4. Each (base, variant) pair is run on all texts over {{a,b,c,é,\\n,-}} up to length 3 (plus the longer repetitive, carriage-return and UTF-8-boundary texts of the C01 space) from every offset and captures_from_pos must be identical. Non-trivial = distinct pairs whose route differs (wrapped vs VM) or whose multiset of delegated sub-patterns differs, and that matched at least once.", all_sites_upto, if ctx.tier == Tier::Quick { "; a seeded quarter of the 4-node trees with one random site" } else { "" }, n_big, n_cpa);
     out.assumptions = vec!["patterns with an unbounded repeat of a nullable body are left out (finding F1: the two engines differ there)".into()];
     let wv = out.acc.get("pairs:wrapped-vs-vm");
     let dd = out.acc.get("pairs:different-delegates");
